@@ -1006,7 +1006,11 @@ Fixpoint adjacent_swizzle (es : list ex) : bool :=
   end.
 
 Definition c_commaswizzle (e : ex) : bool :=
-  match e with ETup es | EBrk es => adjacent_swizzle es | _ => false end.
+  match e with
+  | ETup es | EBrk es => adjacent_swizzle es
+  | ECall _ args => adjacent_swizzle (map snd args)      (* f(x.a,y): the same clash between call arguments *)
+  | _ => false
+  end.
 
 Definition all_classes : list (string * (ex -> bool)) := model_classes ++ [("comma-swizzle", c_commaswizzle)].
 
